@@ -35,6 +35,7 @@ func main() {
 	verbose := flag.Bool("v", false, "print obligations that took more than a second")
 	showLoops := flag.String("loops", "", "print the loop ordinals of a function and exit")
 	dumpFn := flag.String("dumpfn", "", "print the SSA of a function (as loaded by govc) and exit")
+	cfiles := flag.String("cfiles", "", "comma-separated base names of contract files to load (default: all)")
 	devContracts := flag.Bool("dev", false, "use /verif/contracts/verif_contracts.go even if the repo has its own copy (development)")
 	flag.Parse()
 	if s := os.Getenv("VERIF_SEED"); s != "" && *seed == 0 {
@@ -48,6 +49,9 @@ func main() {
 	}
 	p.registerTags()
 	for _, cfile := range p.contractFiles {
+		if *cfiles != "" && !hasStr(strings.Split(*cfiles, ","), filepath.Base(cfile)) {
+			continue
+		}
 		if err := p.parseContracts(cfile, nil); err != nil {
 			fmt.Fprintln(os.Stderr, "govc: contract error:", err)
 			os.Exit(2)
@@ -201,7 +205,7 @@ func main() {
 		knownSet[k.Func+" :: "+k.Obligation] = true
 	}
 	var wg sync.WaitGroup
-	sem := make(chan struct{}, 6)
+	sem := make(chan struct{}, 4)
 	for i, it := range run.items {
 		wg.Add(1)
 		go func(i int, it *OblResult) {
